@@ -467,6 +467,8 @@ def getattr_(R, E, base, attr, node):
         if attr == "__class__":
             return base.cls if isinstance(base.cls, RepoClass) else ClassOf(base)
         if attr == "__dict__":
+            if base.tag == "estimator":
+                return {k: v for k, v in base.fields.items() if not k.startswith("$")}
             return base.fields
         if isinstance(base.cls, RepoClass):
             m = E.find_method(base.cls, attr)
